@@ -58,6 +58,7 @@ VALID = {
               '/* and a long identical tail ............................................ */ }',
     "M_mid2": 'def exp { /* a long comment that is the same in both revisions ........ */ splitters: uid return "m2" weighted 3, "x" weighted 1 '
               '/* and a long identical tail ............................................ */ }',
+    "U_cafe": 'def exp { splitters: uid return "caf\u00e9" weighted 1, "x" weighted 1 }',
     "F_shared": 'def exp { splitters: uid, plan if plan in ("pro", "max") { return 1 weighted 1, 2 weighted 1 } else '
                 '{ return 0.5 weighted 1 } }',
 }
@@ -83,6 +84,12 @@ INVALID = {
 LATE_FAIL = {
     "late_keyword": 'def exp { splitters: class return "a" weighted 1, "b" weighted 1 }',
     "late_name": 'def lambda { splitters: uid return "a" weighted 1 }',
+    # the UTF-8 bytes of U_cafe's e-acute spelled as lone surrogates (what errors="surrogateescape" produces): a different
+    # text, and one that has no UTF-8 encoding - whatever an evaluator does with it, it does every time
+    "late_surrogate": 'def exp { splitters: uid return "caf\udcc3\udca9" weighted 1, "x" weighted 1 }',
+    # grammatical, but far beyond what Python's compiler nests (about 100 blocks / 200 parentheses)
+    "late_deep_not": 'def exp { splitters: uid if ' + "not " * 260 + 'n > 3 { return "deep" weighted 1 } }',
+    "late_deep_if": "def exp { splitters: uid " + "".join(f"if n > {i} {{ " for i in range(105)) + 'return "deep" weighted 1 ' + "} " * 105 + "}",
 }
 
 
@@ -283,6 +290,14 @@ def run(ctx):
             if not ctx.mine(idx):
                 continue
             lc.run_history([("new", 1, "A")] + [("recompile", 0, t) for t in seq], "exhaustive3")
+    # late failures other than a keyword: unencodable text, nesting beyond the Python compiler's limits
+    alpha5 = ["U_cafe", "late_surrogate", "late_deep_not", "late_deep_if", "C_fields"]
+    for L in range(1, 4 if not ctx.quick() else 3):
+        for seq in itertools.product([(op, t) for op in ("new", "recompile") for t in alpha5], repeat=L):
+            idx += 1
+            if not ctx.mine(idx):
+                continue
+            lc.run_history([("new", 1, "A")] + [(op, 0, t) for op, t in seq], "exhaustive5")
     # fifth layer: pairs that collide under crc32 / digests truncated to 32 bits (data/collisions.json)
     for a, b in COLLISION_PAIRS:
         for seq in ((a, b), (b, a), (a, b, a), (a, "bad_char", b), (b, b, a)):
